@@ -150,6 +150,38 @@ def k_pc_conditional(ctx, rows, cols, by, on, weights=None):
     ctx.count("cells_compared")
 
 
+def k_pgc_big(ctx, mult, np_seed):
+    """Groups of tens of thousands of rows in which one value occurs `mult` times per group (count products beyond 2^31):
+    pc(g, h) follows from the value counts."""
+    import numpy as np
+    import pandas as pd
+    import pyrepseq as prs
+    rng = random.Random(np_seed)
+    groups = {"g1": {"X": mult, "A": 700, "B": 3}, "g2": {"X": mult + 11, "B": 900, "C": 5}, "g3": {"A": 40, "C": 60, "D": 1}}
+    rows = [(g, v) for g, cnt in groups.items() for v, c in cnt.items() for _ in range(c)]
+    rng.shuffle(rows)
+    df = pd.DataFrame(rows, columns=["grp", "seq"])
+    ctx.count("pc_grouped_cross_big_cases")
+    ctx.nontriv(["pgcbig", mult, np_seed])
+    ctx.sample("pc_grouped_cross_big", {"rows": len(rows), "multiplicity": mult})
+    out = ctx.call(prs.pc_grouped_cross, df, "grp", "seq")
+    if not out.ok:
+        ctx.violation("pc_grouped_cross:big:raised", "raised", out.describe(), None)
+        return
+    M = out.value
+    for a in groups:
+        for b in groups:
+            if a == b:
+                continue
+            na, nb = sum(groups[a].values()), sum(groups[b].values())
+            want = Fraction(sum(groups[a][v] * groups[b].get(v, 0) for v in groups[a]), na * nb)
+            got = float(M.loc[a, b])
+            ctx.count("cells_compared")
+            if not abs(got - float(want)) <= 1e-12 * max(1.0, float(want)):
+                ctx.violation("pc_grouped_cross:big:wrong", f"[{a}, {b}] is not pc(group {a}, group {b}) for groups of {na} and {nb} rows", got, float(want))
+                return
+
+
 def k_pc_grouped_cross(ctx, rows, cols, by, on):
     import numpy as np
     import pyrepseq as prs
@@ -380,7 +412,7 @@ def k_stdrenyi(ctx, rows, cols, features, base=2.0):
     ctx.count("cells_compared")
 
 
-KINDS = {"pc_conditional": k_pc_conditional, "pc_grouped_cross": k_pc_grouped_cross, "pcDelta_grouped": k_pcdelta_grouped,
+KINDS = {"pgc_big": k_pgc_big, "pc_conditional": k_pc_conditional, "pc_grouped_cross": k_pc_grouped_cross, "pcDelta_grouped": k_pcdelta_grouped,
          "pcDelta_grouped_cross": k_pcdelta_cross, "renyi": k_renyi, "stdrenyi": k_stdrenyi}
 
 COLS = ["g1", "g2", "seq", "f"]
@@ -439,6 +471,7 @@ def generate(tier, seed):
     rng = random.Random(13000 + seed)
     thorough = tier == "thorough"
     yield from _all_for(WIT, rng, True)
+    yield "pgc_big", {"mult": 3000 if not thorough else 47000, "np_seed": 13300 + seed}, True
     # missing feature cells inside small groups (a missing cell is one distinct empty value; the rows still count as members)
     holes = [["a", 1, "AA", None], ["a", 1, "AA", "x"], ["b", 2, "AC", None], ["b", 2, "AC", None], ["c", 3, "AD", "y"], ["c", 3, "AD", None], ["c", 3, "AD", "y"],
              ["d", 4, "AE", None]]
